@@ -226,12 +226,24 @@ def _on_alarm(signum, frame):
     raise ImplTimeout("implementation call did not return within the time limit")
 
 
-def guarded(f, secs=2.0):
-    """run f() under a wall-clock limit: a changed implementation may loop on an attacker-chosen array count"""
+N_TIMEOUTS = [0]
+
+
+def guarded(f, secs=1.0):
+    """run f() under a wall-clock limit: a changed implementation may loop on an attacker-chosen array count.
+    Unchanged code answers every generated case in a few ms; once calls start to time out the limit shrinks so
+    that a looping implementation cannot stall the run (the verdict is a violation by then anyway)."""
+    if N_TIMEOUTS[0] >= 40:
+        secs = min(secs, 0.03)
+    elif N_TIMEOUTS[0] >= 8:
+        secs = min(secs, 0.15)
     old = signal.signal(signal.SIGALRM, _on_alarm)
     signal.setitimer(signal.ITIMER_REAL, secs)
     try:
         return f()
+    except ImplTimeout:
+        N_TIMEOUTS[0] += 1
+        raise
     finally:
         signal.setitimer(signal.ITIMER_REAL, 0)
         signal.signal(signal.SIGALRM, old)
@@ -987,7 +999,7 @@ def prop_cases(rng, tier):
 def _guard_chk(f):
     def g(*a, **kw):
         try:
-            return guarded(lambda: f(*a, **kw), 5.0)
+            return guarded(lambda: f(*a, **kw), 3.0)
         except ImplTimeout as e:
             return {"kind": "implementation-hangs", "detail": str(e)}
     g.__name__ = f.__name__
